@@ -51,6 +51,7 @@ type Cfg struct {
 	Carriers    bool
 	NonIterable bool // allow `for` over a scalar (error arm of C06)
 	NoInterp    bool // no string interpolation (position checks)
+	BigText     bool // occasionally a text chunk of 30-150 KB
 	Collide     bool // loop variables, macro parameters and set targets share a small name pool with outer variables
 	Wild        bool // any operand kind anywhere (totality checks)
 	WildFilters []string
@@ -525,6 +526,11 @@ func (g *G) Text() string {
 	pieces := plainPieces
 	if g.C.HostileText {
 		pieces = hostilePieces
+		// now and then a chunk larger than any plausible internal buffer
+		if g.C.BigText && g.intn("bigtext", 0, 40) == 0 {
+			unit := pickS(g, "bigunit", []string{"abcdefghij", "é日本 \n", "x}%#", "0123456789ABCDEF"})
+			return strings.Repeat(unit, g.intn("bigrep", 3000, 9000))
+		}
 	}
 	n := g.intn("tlen", 1, 6)
 	var b strings.Builder
